@@ -65,22 +65,20 @@ async fn recognize(stream: &mut TcpStream) -> Result<Proxy, anyhow::Error> {
     }
 }
 
-fn recognize_http(method: &str, mut path: &str) -> Result<Proxy, anyhow::Error> {
-    if let Some(i) = path.rfind('?') {
-        path = &path[..i];
-    }
-    if path.ends_with('/') {
-        path = &path[..path.len() - 1];
-    }
-    if let Some(i) = path.find("://").map(|i| i + 3) {
-        if let Some(j) = path[i..].find('/').map(|j| j + i) { path = &path[i..j] } else { path = &path[i..] }
-    }
+fn recognize_http(method: &str, path: &str) -> Result<Proxy, anyhow::Error> {
     if "CONNECT" == method {
+        // authority-form: host ":" port
         let h_end = path.rfind(':').ok_or_else(|| anyhow!("invalid http CONNECT uri"))?;
-        let host = path[..h_end].to_owned();
         let port = path[h_end + 1..].parse()?;
-        Ok(Proxy::Https(Address::Domain(host, port)))
+        Ok(Proxy::Https(domain(&path[..h_end], port)?))
     } else {
+        // absolute-form: scheme "://" authority [ "/" path ] [ "?" query ]
+        let s_end = path.find("://").ok_or_else(|| anyhow!("unsupported request target"))?;
+        if s_end == 0 || !path[..s_end].bytes().all(|b| b.is_ascii_alphanumeric() || matches!(b, b'+' | b'-' | b'.')) {
+            bail!("unsupported request target");
+        }
+        let path = &path[s_end + 3..];
+        let path = &path[..path.find(['/', '?', '#']).unwrap_or(path.len())];
         let h_end = path.rfind(':');
         let h_v6_end = path.rfind(']');
         enum Port {
@@ -99,14 +97,16 @@ fn recognize_http(method: &str, mut path: &str) -> Result<Proxy, anyhow::Error> 
             }
         } {
             let p_start = index + 1;
-            let host = path[..index].to_owned();
             let port = path[p_start..].parse()?;
-            Ok(Proxy::Http(Address::Domain(host, port)))
+            Ok(Proxy::Http(domain(&path[..index], port)?))
         } else {
-            let host = path.to_owned();
-            Ok(Proxy::Http(Address::Domain(host, 80)))
+            Ok(Proxy::Http(domain(path, 80)?))
         }
     }
+}
+
+fn domain(host: &str, port: u16) -> Result<Address, anyhow::Error> {
+    Ok(Address::Domain(host.to_owned(), port))
 }
 
 #[cfg(octo_squirrel_verif)]
